@@ -239,15 +239,22 @@ class PyFlat:
         self.ext = bytearray(0x100000)
         self.imem = bytearray(256)
         self.writes: Dict[int, int] = {}
+        self.acc: Optional[List[Tuple[int, int, int]]] = None   # (raw 24-bit address, value, is_write) when logging
 
     def rd(self, a: int) -> int:
         a &= 0xFFFFFF
         if 0x100000 <= a < 0x100100:
-            return self.imem[a - 0x100000]
-        return self.ext[a & 0xFFFFF]     # outside the internal window the external space wraps modulo 1 MiB
+            v = self.imem[a - 0x100000]
+        else:
+            v = self.ext[a & 0xFFFFF]     # outside the internal window the external space wraps modulo 1 MiB
+        if self.acc is not None:
+            self.acc.append((a, v, 0))
+        return v
 
     def wr(self, a: int, v: int) -> None:
         a &= 0xFFFFFF
+        if self.acc is not None:
+            self.acc.append((a, v & 0xFF, 1))
         if 0x100000 <= a < 0x100100:
             self.imem[a - 0x100000] = v & 0xFF
         else:
@@ -287,7 +294,31 @@ BLOCK_OPS = frozenset([0x54, 0x55, 0x5C, 0x5D, 0xC4, 0xC5, 0xD4, 0xD5, 0xEC, 0xF
                        0x56, 0x5E, 0xC3, 0xF3, 0xFB])
 
 
-def py_run(emu, bus, n: int, lo: int = CODE_LO, hi: int = CODE_HI, stop_at=None, block_limit=None) -> List[list]:
+def access_features(acc, pc: int, ln: int) -> Dict[str, int]:
+    """What the Python replica's data accesses of one instruction looked like (instruction fetch excluded):
+    ar = BP/PX/PY (internal 0xEC-0xEE) read or written; ov = an access just outside the internal window
+    (0x100100.. above it, 0xFFF00-0xFFFFF below it: an internal pointer that ran over an end); arw = BP/PX/PY
+    written; nbcd = a byte
+    that is not two BCD digits was read or written; n = number of data accesses."""
+    ar = arw = ov = nbcd = n = 0
+    lo, hi = pc, pc + max(ln, 1) + 8
+    for a, v, w in acc or ():
+        if not w and lo <= a < hi:
+            continue
+        n += 1
+        if 0x1000EC <= a <= 0x1000EE:
+            ar = 1
+            if w:
+                arw = 1
+        if 0x100100 <= a <= 0x1100FF or 0xFFF00 <= a <= 0xFFFFF:
+            ov = 1
+        if (v & 0x0F) > 9 or (v >> 4) > 9:
+            nbcd = 1
+    return {"ar": ar, "arw": arw, "ov": ov, "nbcd": nbcd, "n": n}
+
+
+def py_run(emu, bus, n: int, lo: int = CODE_LO, hi: int = CODE_HI, stop_at=None, block_limit=None,
+           features: bool = False) -> List[list]:
     """`stop_at`: opcodes (first byte after an optional PRE) that end the run before they execute;
     `block_limit`: a block instruction about to run with I above this (or I = 0, i.e. 65536) ends the run
     too (the Python core needs milliseconds per iteration)."""
@@ -308,6 +339,7 @@ def py_run(emu, bus, n: int, lo: int = CODE_LO, hi: int = CODE_HI, stop_at=None,
                 if iv > block_limit:
                     break
         bus.writes = {}
+        bus.acc = [] if features else None
         try:
             info = emu.execute_instruction(pc)
             ln = int(info.instruction.length())
@@ -318,7 +350,11 @@ def py_run(emu, bus, n: int, lo: int = CODE_LO, hi: int = CODE_HI, stop_at=None,
                 ln, err = -1, "fallback: not a valid encoding"
         except Exception as e:
             ln, err = -1, f"{type(e).__name__}: {e}"
-        out.append(py_record(emu, bus, pc, opcode, ln, err) + [fetched])
+        rec = py_record(emu, bus, pc, opcode, ln, err) + [fetched]
+        if features:
+            rec.append(access_features(bus.acc, pc, ln))
+            bus.acc = None
+        out.append(rec)
         if ln < 0:
             break
     return out
